@@ -807,10 +807,10 @@ theorem hour_of (x : Rat) (h0 : 0 ≤ x) (n : Nat) (hn : x < 3600 * (n : Rat)) :
       push_cast at hn; linarith
 
 /-- **the longest distance in a sorted timetable that contains the 24 full hours is one hour** -/
-theorem gap_le_hour (E : TimedEnv P) (tt : List T) (hs : SortedTT P tt) (hh : Hourly P tt) (i : Nat)
-    (hi : i < tt.length) : nextGap P tt i ≤ 3600 := by
+theorem gap_le_hour (htod : ∀ t, 0 ≤ todS P t ∧ todS P t < secPerDay) (tt : List T) (hs : SortedTT P tt)
+    (hh : Hourly P tt) (i : Nat) (hi : i < tt.length) : nextGap P tt i ≤ 3600 := by
   obtain ⟨x, hx⟩ : ∃ x, tt[i]? = some x := ⟨tt[i], List.getElem?_eq_getElem hi⟩
-  have xr := E.tod_range x
+  have xr := htod x
   have hd : secPerDay = (86400 : Rat) := rfl
   rw [hd] at xr
   obtain ⟨h, h24, hlo, hhi⟩ := hour_of (todS P x) xr.1 24 (by push_cast; linarith [xr.2])
@@ -831,7 +831,7 @@ theorem gap_le_hour (E : TimedEnv P) (tt : List T) (hs : SortedTT P tt) (hh : Ho
   by_cases hw : i + 1 < tt.length
   · obtain ⟨y, hy⟩ : ∃ y, tt[i + 1]? = some y := ⟨tt[i + 1], List.getElem?_eq_getElem hw⟩
     rw [nextGap_step tt i x y hx hy hw]
-    have yr := E.tod_range y
+    have yr := htod y
     rw [hd] at yr
     by_cases hlt : h + 1 < 24
     · obtain ⟨j, t, hj, htod, hij⟩ := later hlt
@@ -848,7 +848,7 @@ theorem gap_le_hour (E : TimedEnv P) (tt : List T) (hs : SortedTT P tt) (hh : Ho
   · have hlast : i + 1 = tt.length := by omega
     obtain ⟨y, hy⟩ : ∃ y, tt[0]? = some y := ⟨tt[0], List.getElem?_eq_getElem (by omega)⟩
     rw [nextGap_wrap tt i x y hx hy hlast, hd]
-    have yr := E.tod_range y
+    have yr := htod y
     have h23 : ¬ h + 1 < 24 := by
       intro hlt
       obtain ⟨j, t, hj, _, hij⟩ := later hlt
